@@ -4,6 +4,7 @@ import (
 	"fmt"
 	"go/constant"
 	"go/token"
+	"go/types"
 	"strings"
 
 	"golang.org/x/tools/go/ssa"
@@ -270,6 +271,30 @@ func c04Orchestration(w *World, r *Report) {
 			op, _ := FindRel(Rels(er[0].Block()), func(v ssa.Value) bool { return v == er[0].Common().Args[4] }, isNilConst)
 			okS = okS && op == "!="
 		}
+		// the user-flow loop ends at the flow that answered: the recorded operation is never
+		// set on a path that goes round the loop again (later flows would run their request
+		// path after the answer, and overwrite the record)
+		carried := []string{}
+		for _, h := range loopHeadersOf(eq) {
+			for _, in := range h.Instrs {
+				ph, isPhi := in.(*ssa.Phi)
+				if !isPhi || !strings.HasSuffix(ph.Type().String(), "shortCircuitOperation") {
+					continue
+				}
+				for i, ed := range ph.Edges {
+					p := h.Preds[i]
+					if h.Dominates(p) && ed != ssa.Value(ph) {
+						// (a value that is known to be nil where the loop continues changes nothing)
+						e := ed
+						if op, _ := FindRel(relsOfConds(CondsOfEdge(p, h)), func(v ssa.Value) bool { return v == e || v == unhelp(e) }, isNilConst); op == "==" || isNilConst(ed) {
+							continue
+						}
+						carried = append(carried, w.Pos(posOf(ph))+": "+trunc(Path(ed), 60))
+					}
+				}
+			}
+		}
+		r.Check(len(carried) == 0, "R4", "executeReq/user-loop-ends-at-the-answering-flow", eq.Pos(), "the short-circuit record is never changed on a path that continues the loop over the user flows (%v)", carried)
 		r.Check(okS, "R4", "executeReq/short-circuit-continues-as-response", eq.Pos(), "a recorded short circuit switches the stream to response, re-selects the flows and runs executeRes with the recorded operation")
 	}
 	es := w.Fn(pkgStreams, "Stream.executeRes")
@@ -741,7 +766,31 @@ func c04ForeignRootConsumedOnce(w *World, r *Report) {
 // and then the incorporated flow's own), and a processor reference keeps its
 // full `flow.processor` key as ReferenceName (the node key) - it is taken
 // before the name is split.
+// which of a resource's processors go into the generated system flows, per
+// direction and position (reviewed decision table; compared as a boolean
+// function of its conditions, decision.go)
+var c04ProcessorsByType = []string{
+	"(public-types.ResourceProcessorLocationI).GetEnd((public-types.ResourceFlowI).GetRequest(param:sfr.resourceFlow)) <= !(param:connectedAt == 1) ; (param:flowType == 2)",
+	"(public-types.ResourceProcessorLocationI).GetEnd((public-types.ResourceFlowI).GetResponse(param:sfr.resourceFlow)) <= !(param:connectedAt == 1) ; !(param:flowType == 2) ; (param:flowType == 1)",
+	"(public-types.ResourceProcessorLocationI).GetStart((public-types.ResourceFlowI).GetRequest(param:sfr.resourceFlow)) <= (param:connectedAt == 1) ; (param:flowType == 2)",
+	"(public-types.ResourceProcessorLocationI).GetStart((public-types.ResourceFlowI).GetResponse(param:sfr.resourceFlow)) <= !(param:flowType == 2) ; (param:connectedAt == 1) ; (param:flowType == 1)",
+	"local:slicelit[:] <= !(param:flowType == 1) ; !(param:flowType == 2)",
+}
+
 func c04BuilderHelpers(w *World, r *Report) {
+	if gp := w.Fn("lunar/engine/streams/resources/utils", "SystemFlowRepresentation.getProcessorsByType"); gp == nil {
+		r.Undec("R7", "getProcessorsByType", token.NoPos, "function not found")
+	} else {
+		// the numeric constants of the table are StreamTypeRequest/Response and SystemFlowStart
+		okC := isConstVal(ssa.NewConst(constant.MakeInt64(2), types.Typ[types.Int]), w.constOf("lunar/engine/streams/public-types", "StreamTypeRequest")) &&
+			isConstVal(ssa.NewConst(constant.MakeInt64(1), types.Typ[types.Int]), w.constOf("lunar/engine/streams/public-types", "StreamTypeResponse")) &&
+			isConstVal(ssa.NewConst(constant.MakeInt64(1), types.Typ[types.Int]), w.constOf("lunar/engine/streams/internal-types", "SystemFlowStart"))
+		if !okC {
+			r.Undec("R7", "getProcessorsByType/constants", gp.Pos(), "StreamTypeRequest/StreamTypeResponse/SystemFlowStart are no longer 2/1/1: regenerate the reviewed table")
+		} else {
+			checkDecision(r, "R7", "getProcessorsByType", gp, 0, c04ProcessorsByType)
+		}
+	}
 	// addEdge de-duplicates by ConnectionEdge.equal (condition and target), not by pointer:
 	// every connection builds a fresh edge, an incorporated flow can be built in twice
 	if ae := w.Fn(pkgFlow, "FlowGraphNode.addEdge"); ae == nil {
